@@ -7,7 +7,7 @@ conf=$(/tmp/wt/confirm.sh $P $X 2>&1 | tail -2 | tr '\n' ' ')
 python3 - "$P" "$X" "$conf" <<'PY'
 import json,sys
 p,x,conf=sys.argv[1:4]
-json.dump({"property":p,"seed":x,"breaks":p,"round":(3 if x in "EF" else 2),"source":"independent sub-agent given only the property text and a scratch worktree (later round, after the native stand-ins were built)",
+json.dump({"property":p,"seed":x,"breaks":p,"round":(4 if x in "GH" else 3 if x in "EF" else 2),"source":"independent sub-agent given only the property text and a scratch worktree (later round, after the native stand-ins were built)",
  "confirmed_by":conf,"detected_by":"(filled in after running the checks)"}, open("/verif/seeded/%s_%s/meta.json"%(p,x),"w"), indent=1)
 PY
 echo "$conf"
